@@ -31,7 +31,7 @@ def htmlEvP (r : RS) (hd : Bool) (ev : FEv) : RS × Bool :=
 
 def HtmlOkP (raw hd : Bool) (ev : FEv) : Prop :=
   match ev with
-  | .doctype n p s => raw = false ∧ (hd = false → dtScan none (doctypeContent n p s) = true)
+  | .doctype n p s => raw = false ∧ (hd = false → dtScan false none (doctypeContent n p s) = true)
   | .pi t d => raw = false ∧ piSafe false false (t ++ ' ' :: d) = true
   | _ => HtmlOk raw ev
 
@@ -175,7 +175,7 @@ def XhtmlOkP (o : Opts) (inCd : Bool) (f : Flags) (ev : FEv) : Prop :=
   if inCd then XhtmlOkC o true ev
   else
     match ev with
-    | .doctype n p s => f.hd = false → dtScan none (doctypeContent n p s) = true
+    | .doctype n p s => f.hd = false → dtScan true none (doctypeContent n p s) = true
     | .pi t d => piSafe true false (t ++ ' ' :: d) = true
     | .xmlDecl v e s => (f.hx = false ∧ o.dropXmlDecl = false) → piSafe true false (xmlDeclContent v e s) = true
     | _ => XhtmlOkC o false ev
